@@ -4,3 +4,8 @@ import RzmqModel.Props.C09
 #print axioms Rzmq.C09.cancel_loses_nothing
 #print axioms Rzmq.C09.cancelled_send_not_delivered
 #print axioms Rzmq.C09.inv_with_cancellation
+#print axioms Rzmq.C09.tx_source_shape
+#print axioms Rzmq.C09.cancelled_frame_by_frame_send_is_all_or_nothing
+#print axioms Rzmq.C09.cancelled_last_frame_leaves_the_socket_usable
+#print axioms Rzmq.C09.keeping_the_transaction_across_the_await_breaks_it
+#print axioms Rzmq.C09.handing_frames_over_one_by_one_breaks_it
